@@ -11,6 +11,9 @@ CONFIGS = [
     ("adaptive64-256", True, 64, 256, 0, 0, ["-DSONIC_ALLOCATOR_MAX_CHUNK_CAPACITY=256"]),
     ("simple64-user128", False, 64, 256, 128, 0, []),
     ("simple64-user128-misaligned", False, 64, 256, 128, 3, []),
+    # capacity not a multiple of the 8-byte granule, buffer misaligned by 3 and by 7
+    ("simple64-user124-misaligned3", False, 64, 256, 124, 3, []),
+    ("simple64-user62-misaligned7", False, 64, 256, 62, 7, []),
     ("simple256", False, 256, 1024, 0, 0, []),
 ]
 SIZES = "{0, 1, 8, 9, 24, 56, 64, 65, 72, 128, 300, 520}"
@@ -48,7 +51,7 @@ def run(tier):
     builds = ["asan-avx2", "prod-avx2"]
     total = 0
     drift = 0
-    cfgs = CONFIGS[:4] if q else CONFIGS       # the 256-byte-chunk configuration is thorough-only (slow model)
+    cfgs = CONFIGS[:6] if q else CONFIGS       # the 256-byte-chunk configuration is thorough-only (slow model)
     results = parallel(lambda c: one_config(ctx, c, q, builds), cfgs, workers=5)
     for name, nrecs, d, sample in results:
         total += nrecs
